@@ -15,7 +15,8 @@ func init() {
 		ID:    "C18",
 		Title: "The JSON document is the configuration, no more and no less",
 		Explanation: "'Exactly those leaves' is an algorithmic property of addPathToTree over all inputs and is declined; this is the thinnest claim of the twenty. Decided: (1) pruning decides 'lies beneath' through the boundary-aware subtree helper (shared with C03), and remembers every deleted subtree root; (2) the v2 and v3 tree packages have equal statement fingerprints modulo *PathValue ↔ PathValue; " +
-			"(3) the three facts the list-entry reuse argument rests on: a new entry is appended (and the key map used as the entry) iff foundkeys < len(keyMap); a key mismatch resets the count and moves on to the next entry; BuildTree inserts in the order produced by PrunePathValues, whose comparator is '<' on Path.",
+			"(3) the three facts the list-entry reuse argument rests on: a new entry is appended (and the key map used as the entry) iff foundkeys < len(keyMap); a key mismatch resets the count and moves on to the next entry; BuildTree inserts in the order produced by PrunePathValues, whose comparator is '<' on Path." +
+			" Also: C18.6 key kinds covered by the comparison helper.",
 		Declined: []string{"that the tree contains exactly the given leaves for all inputs (splitting/merging of list entries in general)", "key parsing inside an element with escaped brackets"},
 		Run:      runC18,
 		Witness:  []WitnessTarget{{pkgTreeV2, []string{"PrunePath", "BuildTree", "addPathToTree"}}},
